@@ -285,9 +285,8 @@ def run(ctx):
         'instruction or a container instruction acts afterwards')
     ctx.assumptions += [
         'map keys are atoms (nat/string); contents are atoms or pairs of atoms; no lambdas, sets, or-types in the modelled set',
-        'big_map values live in the in-memory diff only (the offline context has no stored big_map); ITER over a big_map with removed keys, '
-        'DUP 0, and BigMapType.update on an existing key while its comprehensions walk the removed keys (C15) are reported as `unmodelled` by the '
-        'model and not compared',
+        'big_map values live in the in-memory diff only (the offline context has no stored big_map); ITER over a big_map with removed keys '
+        'and DUP 0 are reported as `unmodelled` by the model and not compared',
         'conservation is proved for executions whose UPDATE / GET_AND_UPDATE store values of the declared value type (ghost flag `typedStores`): '
         'pytezos has no dynamic check there, the Michelson type checker rejects such programs; the oracle scopes conservation / copy findings '
         'that follow an ill-typed store under a separate key prefix and does not report them',
